@@ -197,7 +197,7 @@ func TestCheck(t *testing.T) {
 		ws[i] = &mon{r: r, ms: move.NewStore(), lc: ev.NewLocal()}
 	}
 	corpus := gen.Corpus()
-	walks := r.N(6000, 120000)
+	walks := r.N(30000, 300000)
 	ev.Parallel(walks, func(wk, i int) {
 		m := ws[wk]
 		rng := r.RNG("c04-walk", i)
@@ -225,7 +225,7 @@ func TestCheck(t *testing.T) {
 		}
 		r.Merge(m.lc)
 	})
-	roots := r.N(400, 8000)
+	roots := r.N(1500, 15000)
 	ev.Parallel(roots, func(wk, i int) {
 		m := ws[wk]
 		rng := r.RNG("c04-transp", i)
@@ -264,7 +264,7 @@ func TestCheck(t *testing.T) {
 	})
 	// several boards alive at once (StartPos() x3, FromFEN of the same text, a clone), moved in
 	// random interleaving: an operation on one board must not disturb any other board
-	nmb := r.N(300, 6000)
+	nmb := r.N(3000, 30000)
 	ev.Parallel(nmb, func(wk, i int) {
 		m := ws[wk]
 		rng := r.RNG("c04-multi", i)
@@ -320,7 +320,7 @@ func TestCheck(t *testing.T) {
 	board.VerifCheckEnabled = true
 	board.VerifCheckFail = r.HookFail("C04:in-situ-consistency-check-failed")
 	before := board.VerifCheckCount.Load()
-	ns := r.N(96, 1600)
+	ns := r.N(320, 3200)
 	ev.Parallel(ns, func(wk, i int) {
 		rng := r.RNG("c04-search", i)
 		p := gen.AnyPos(rng)
